@@ -5,8 +5,15 @@ package tokenizer
 // Contracts for the govc verification-condition generator (see /verif/DESIGN.md, sections 1.2, 4.11, 4.13).
 // This file is comment-only: it contains no declarations and changes no compiled code.
 
+// The read cursor (cost mode: peak() is the largest value it took during a call).
+//@ cursor Tokenizer.pos.Index
+
 // Data-structure invariant of a tokenizer between the steps of a run: the cursor lies inside the input.
 //@ pred tz_ok(t *Tokenizer) = 0 <= t.pos.Index && t.pos.Index <= len(t.input)
+
+// The position cache is usable as a starting point for counting columns: it holds an answer, or it is empty and says
+// "byte 0" (what Reset leaves), from where counting starts at column 1 anyway.
+//@ pred pc_ok(t *Tokenizer) = (t.posCacheColumn >= 1 || t.posCacheIndex == 0) && 0 <= t.posCacheIndex && t.posCacheIndex <= t.pos.Index
 
 // Default contract of the scanning methods: the invariant is preserved, the cursor never moves backwards,
 // the input is not replaced, and a successful read that started before the end of the input consumed
@@ -15,6 +22,9 @@ package tokenizer
 //@   except (*Tokenizer).Tokenize, (*Tokenizer).TokenizeContext, (*Tokenizer).Reset, (*Tokenizer).SetDialect
 //@   except (*Tokenizer).SetLogger, (*Tokenizer).Dialect
 //@   requires tz_ok(recv)
+//@   requires @C20 forall(k, 0, len(recv.lineStarts), recv.lineStarts[k] >= 0)
+//@   requires @C20 pc_ok(recv)
+//@   requires @C20 0 <= recv.codeScanIndex && recv.codeScanIndex <= recv.pos.Index
 //@   ensures  tz_ok(recv)
 //@   ensures  recv.pos.Index >= old(recv.pos.Index)
 //@   ensures  recv.input == old(recv.input)
@@ -22,9 +32,28 @@ package tokenizer
 //@   ensures  @C13 implies(err != nil, structured(err) || isctx(err))
 //@   ensures  @C13 implies(err != nil && structured(err), fam(err) == 1)
 //@   ensures  @C11 implies(err != nil && causectx(err), isctx(err))
+// Cost (abstract steps, see DESIGN 4.20). peak() is the furthest point the cursor reached during the call. A scanning
+// method that succeeds spends at most a constant number of steps per byte between where it started and the furthest
+// byte it looked at, stops at that byte (no look-ahead left behind) and leaves the two position caches alone; one that
+// fails may in addition copy the input into its error and ask for the position of the failure, once.
+//@   ensures  @C20 implies(succeeded(), cost() <= 8*(peak() - old(recv.pos.Index)) + 8)
+//@   ensures  @C20 cost() <= 8*(peak() - old(recv.pos.Index)) + (recv.posCacheIndex - old(recv.posCacheIndex)) + 16*len(recv.input) + 1000
+//@   ensures  @C20 peak() <= len(recv.input)
+//@   ensures  @C20 pc_ok(recv) && recv.posCacheIndex >= old(recv.posCacheIndex)
+//@   ensures  @C20 recv.codeScanIndex >= old(recv.codeScanIndex) && recv.codeScanIndex <= recv.pos.Index
+//@   ensures  @C20 implies(succeeded(), peak() == recv.pos.Index)
+//@   ensures  @C20 implies(succeeded(), recv.posCacheIndex == old(recv.posCacheIndex) && recv.posCacheColumn == old(recv.posCacheColumn))
+//@   ensures  @C20 implies(succeeded(), recv.codeScanIndex == old(recv.codeScanIndex) && recv.codeScanFound == old(recv.codeScanFound))
+//@   loop * invariant @C20 cost() <= 8*(peak() - old(recv.pos.Index)) + 4
+//@   loop * invariant @C20 cost() <= 2*(peak() - old(recv.pos.Index)) + 2
+//@   loop * invariant @C20 cost() <= 4*(peak() - old(recv.pos.Index)) + 4
+//@   loop * invariant @C20 peak() == recv.pos.Index && peak() <= len(recv.input)
+//@   loop * invariant @C20 recv.posCacheIndex == old(recv.posCacheIndex) && recv.posCacheColumn == old(recv.posCacheColumn)
+//@   loop * invariant @C20 recv.codeScanIndex == old(recv.codeScanIndex) && recv.codeScanFound == old(recv.codeScanFound)
 
 // Constructors of the cursor and the reset used at the start of every run and at the pool boundary.
 //@ func NewPosition
+//@   ensures @C20 cost() <= 0
 //@   ensures result.Line == line && result.Index == index && result.Column == 1 && result.LastNL == 0
 
 //@ func (*Tokenizer).Reset
@@ -33,32 +62,101 @@ package tokenizer
 //@   ensures t.lineStart.Line == 0 && t.lineStart.Index == 0 && t.lineStart.Column == 0 && t.lineStart.LastNL == 0
 //@   ensures len(t.lineStarts) == 1 && t.lineStarts[0] == 0
 //@   ensures t.line == 0 && t.logger == nil && len(t.Comments) == 0 && ptr(t.Comments) == 0
+//@   ensures t.posCacheIndex == 0 && t.posCacheColumn == 0 && t.codeScanIndex == 0 && t.codeScanFound == false
+//@   ensures t.tokenStart == 0
+//@   ensures @C20 cost() <= 8
 //@   ensures t.keywords == old(t.keywords) && t.dialect == old(t.dialect)
 
 // Position.Location is public API on a tokenizer between runs: the cursor invariant holds for it.
 //@ func (Position).Location
 //@   requires tz_ok(t)
 
-// Reported positions are 1-based and the line is one of the input's lines.
+// Number of line starts at or before idx, by binary search (at most 64 probes).
+//@ func (*Tokenizer).linesUpTo
+//@   ensures 0 <= result && result <= len(t.lineStarts)
+//@   ensures implies(result > 0, t.lineStarts[result-1] <= idx)
+//@   ensures @C20 cost() <= 66 && peak() == recv.pos.Index
+
+// Reported positions are 1-based and the line is one of the input's lines. Cost: one binary search over the line table
+// plus the distance from the previous query (the cached position), when that query was not after this one.
 //@ func (*Tokenizer).toSQLPosition
-//@   inherit
+//@   inherit -C20
 //@   ensures @C05 result.Line >= 1 && result.Column >= 1
 //@   ensures @C05 implies(len(recv.lineStarts) >= 1, result.Line <= len(recv.lineStarts))
-//@   loop 1 invariant @C05 0 <= i && line >= 1 && implies(len(t.lineStarts) >= 1, line <= len(t.lineStarts)) && implies(i == 0, line == 1)
-//@   loop 2 invariant @C05 column >= 1
+//@   ensures recv.posCacheColumn >= 1 && recv.pos.Index == old(recv.pos.Index)
+//@   ensures implies(0 <= pos.Index && pos.Index <= len(recv.input), recv.posCacheIndex == pos.Index)
+//@   ensures @C20 recv.posCacheIndex >= 0 && implies(pos.Index >= 0, recv.posCacheIndex <= pos.Index)
+//@   ensures @C20 implies((old(recv.posCacheColumn) >= 1 || old(recv.posCacheIndex) == 0) && pos.Index >= old(recv.posCacheIndex), recv.posCacheIndex >= old(recv.posCacheIndex))
+//@   ensures @C20 recv.codeScanIndex == old(recv.codeScanIndex) && recv.codeScanFound == old(recv.codeScanFound) && peak() == recv.pos.Index
+//@   ensures @C20 cost() <= 80 + ite((old(recv.posCacheColumn) >= 1 || old(recv.posCacheIndex) == 0) && pos.Index >= old(recv.posCacheIndex), recv.posCacheIndex - old(recv.posCacheIndex), max0(pos.Index))
+//@   loop 1 invariant @C05 column >= 1
+//@   loop 1 invariant from <= i && implies(from < i, i <= pos.Index && i <= len(t.input))
+//@   loop 1 invariant @C20 cost() <= 70 + (i - from)
 
 //@ func (*Tokenizer).getCurrentPosition
-//@   inherit
+//@   inherit -C20
 //@   ensures @C05 result.Line >= 1 && result.Column >= 1
 //@   ensures @C05 implies(len(recv.lineStarts) >= 1, result.Line <= len(recv.lineStarts))
+//@   ensures recv.posCacheColumn >= 1 && recv.posCacheIndex == recv.pos.Index && recv.pos.Index == old(recv.pos.Index)
+//@   ensures @C20 recv.codeScanIndex == old(recv.codeScanIndex) && recv.codeScanFound == old(recv.codeScanFound) && peak() == recv.pos.Index
+//@   ensures @C20 cost() <= 80 + ite((old(recv.posCacheColumn) >= 1 || old(recv.posCacheIndex) == 0) && recv.pos.Index >= old(recv.posCacheIndex), recv.posCacheIndex - old(recv.posCacheIndex), recv.pos.Index)
+
+// Is there anything but blanks on the line before byte idx? Cost: one binary search plus the distance from the byte the
+// previous call stopped at, when that call was not after this one.
+//@ func (*Tokenizer).hasCodeBeforeOnLine
+//@   inherit -C20
+//@   ensures recv.pos.Index == old(recv.pos.Index)
+//@   ensures @C20 recv.codeScanIndex >= 0 && implies(idx >= 0, recv.codeScanIndex <= idx)
+//@   ensures @C20 implies(idx >= old(recv.codeScanIndex), recv.codeScanIndex >= old(recv.codeScanIndex))
+//@   ensures @C20 recv.posCacheIndex == old(recv.posCacheIndex) && recv.posCacheColumn == old(recv.posCacheColumn) && peak() == recv.pos.Index
+//@   ensures @C20 cost() <= 80 + ite(idx >= old(recv.codeScanIndex), recv.codeScanIndex - old(recv.codeScanIndex), max0(idx))
+//@   loop 1 invariant from <= i && implies(from < i, i <= idx && i <= len(t.input))
+//@   loop 1 invariant @C20 cost() <= 70 + (i - from)
+
+// Character classification: constant time (Unicode table look-ups), no steps counted.
+//@ func isUnicodeIdentifierStart
+//@   ensures @C20 cost() <= 0
+//@ func isUnicodeIdentifierPart
+//@   ensures @C20 cost() <= 0
 
 // The readers are entered only with at least one byte left (nextToken checks it).
+// Readers that call other readers, copy what they read or look ahead state their own cost: more steps per byte, and
+// for readIdentifier / nextToken / readPunctuation no promise to stop where they looked (the look-ahead past a
+// compound-keyword start is undone when the next word does not complete a compound keyword).
 //@ func (*Tokenizer).readIdentifier
-//@   inherit
+//@   inherit -C20
 //@   requires recv.pos.Index < len(recv.input)
+//@   ensures @C20 implies(succeeded(), cost() <= 100*(peak() - old(recv.pos.Index)) + 200)
+//@   ensures @C20 cost() <= 100*(peak() - old(recv.pos.Index)) + (recv.posCacheIndex - old(recv.posCacheIndex)) + 16*len(recv.input) + 1000
+//@   ensures @C20 pc_ok(recv) && recv.posCacheIndex >= old(recv.posCacheIndex)
+//@   ensures @C20 recv.codeScanIndex >= old(recv.codeScanIndex) && recv.codeScanIndex <= recv.pos.Index
+//@   ensures @C20 peak() <= len(recv.input) && peak() >= recv.pos.Index
+//@   ensures @C20 implies(succeeded(), len(result0.Value) <= peak() - old(recv.pos.Index) + 1)
+//@   ensures @C20 implies(succeeded(), recv.posCacheIndex == old(recv.posCacheIndex) && recv.posCacheColumn == old(recv.posCacheColumn))
+//@   ensures @C20 implies(succeeded(), recv.codeScanIndex == old(recv.codeScanIndex) && recv.codeScanFound == old(recv.codeScanFound))
+//@   loop * invariant @C20 cost() <= 100*(peak() - old(recv.pos.Index)) + 100
+//@   loop * invariant @C20 cost() <= 20*(peak() - old(recv.pos.Index)) + 40
+//@   loop * invariant @C20 cost() <= 2*(peak() - old(recv.pos.Index)) + 2
+//@   loop * invariant @C20 cost() <= 4*(peak() - old(recv.pos.Index)) + 4
+//@   loop * invariant @C20 peak() == recv.pos.Index && peak() <= len(recv.input)
+//@   loop * invariant @C20 recv.posCacheIndex == old(recv.posCacheIndex) && recv.posCacheColumn == old(recv.posCacheColumn)
+//@   loop * invariant @C20 recv.codeScanIndex == old(recv.codeScanIndex) && recv.codeScanFound == old(recv.codeScanFound)
 //@ func (*Tokenizer).readNumber
-//@   inherit
+//@   inherit -C20
 //@   requires recv.pos.Index < len(recv.input)
+//@   ensures @C20 implies(succeeded(), cost() <= 8*(peak() - old(recv.pos.Index)) + 2*len(buf) + 16)
+//@   ensures @C20 cost() <= 8*(peak() - old(recv.pos.Index)) + 4*len(buf) + (recv.posCacheIndex - old(recv.posCacheIndex)) + 16*len(recv.input) + 1000
+//@   ensures @C20 pc_ok(recv) && recv.posCacheIndex >= old(recv.posCacheIndex)
+//@   ensures @C20 recv.codeScanIndex >= old(recv.codeScanIndex) && recv.codeScanIndex <= recv.pos.Index
+//@   ensures @C20 peak() <= len(recv.input) && implies(succeeded(), peak() == recv.pos.Index)
+//@   ensures @C20 implies(succeeded(), recv.posCacheIndex == old(recv.posCacheIndex) && recv.posCacheColumn == old(recv.posCacheColumn))
+//@   ensures @C20 implies(succeeded(), recv.codeScanIndex == old(recv.codeScanIndex) && recv.codeScanFound == old(recv.codeScanFound))
+//@   loop * invariant @C20 cost() <= 8*(peak() - old(recv.pos.Index)) + 4
+//@   loop * invariant @C20 cost() <= 2*(peak() - old(recv.pos.Index)) + 2
+//@   loop * invariant @C20 cost() <= 4*(peak() - old(recv.pos.Index)) + 4
+//@   loop * invariant @C20 peak() == recv.pos.Index && peak() <= len(recv.input)
+//@   loop * invariant @C20 recv.posCacheIndex == old(recv.posCacheIndex) && recv.posCacheColumn == old(recv.posCacheColumn)
+//@   loop * invariant @C20 recv.codeScanIndex == old(recv.codeScanIndex) && recv.codeScanFound == old(recv.codeScanFound)
 //@ func (*Tokenizer).readQuotedIdentifier
 //@   inherit
 //@   requires recv.pos.Index < len(recv.input)
@@ -66,8 +164,21 @@ package tokenizer
 //@   inherit
 //@   requires recv.pos.Index < len(recv.input)
 //@ func (*Tokenizer).readQuotedString
-//@   inherit
+//@   inherit -C20
 //@   requires recv.pos.Index < len(recv.input)
+//@   ensures @C20 implies(succeeded(), cost() <= 24*(peak() - old(recv.pos.Index)) + 24)
+//@   ensures @C20 cost() <= 24*(peak() - old(recv.pos.Index)) + (recv.posCacheIndex - old(recv.posCacheIndex)) + 40*len(recv.input) + 4000
+//@   ensures @C20 pc_ok(recv) && recv.posCacheIndex >= old(recv.posCacheIndex)
+//@   ensures @C20 recv.codeScanIndex >= old(recv.codeScanIndex) && recv.codeScanIndex <= recv.pos.Index
+//@   ensures @C20 peak() <= len(recv.input) && implies(succeeded(), peak() == recv.pos.Index)
+//@   ensures @C20 implies(succeeded(), recv.posCacheIndex == old(recv.posCacheIndex) && recv.posCacheColumn == old(recv.posCacheColumn))
+//@   ensures @C20 implies(succeeded(), recv.codeScanIndex == old(recv.codeScanIndex) && recv.codeScanFound == old(recv.codeScanFound))
+//@   loop * invariant @C20 cost() <= 24*(peak() - old(recv.pos.Index)) + 4
+//@   loop * invariant @C20 cost() <= 2*(peak() - old(recv.pos.Index)) + 2
+//@   loop * invariant @C20 cost() <= 4*(peak() - old(recv.pos.Index)) + 4
+//@   loop * invariant @C20 peak() == recv.pos.Index && peak() <= len(recv.input)
+//@   loop * invariant @C20 recv.posCacheIndex == old(recv.posCacheIndex) && recv.posCacheColumn == old(recv.posCacheColumn)
+//@   loop * invariant @C20 recv.codeScanIndex == old(recv.codeScanIndex) && recv.codeScanFound == old(recv.codeScanFound)
 //@ func (*Tokenizer).readTripleQuotedString
 //@   inherit
 //@   requires recv.pos.Index < len(recv.input)
@@ -75,18 +186,66 @@ package tokenizer
 //@   inherit
 //@   requires recv.pos.Index < len(recv.input)
 
+// nextToken and readPunctuation (which call each other past a comment): on top of the steps per byte, the position and
+// inline-comment queries made for a comment cost the distance the two caches move forward, so that over a run they
+// add up to at most the input length. Both caches stay behind the cursor.
+//@ func (*Tokenizer).nextToken
+//@   inherit -C20
+//@   ensures @C20 implies(succeeded(), recv.tokenStart >= recv.posCacheIndex && recv.tokenStart >= old(recv.pos.Index) && recv.tokenStart <= recv.pos.Index)
+//@   ensures @C20 implies(succeeded(), cost() <= 400*(peak() - old(recv.pos.Index)) + (recv.posCacheIndex - old(recv.posCacheIndex)) + (recv.codeScanIndex - old(recv.codeScanIndex)) + 400)
+//@   ensures @C20 cost() <= 400*(peak() - old(recv.pos.Index)) + (recv.posCacheIndex - old(recv.posCacheIndex)) + (recv.codeScanIndex - old(recv.codeScanIndex)) + 60*len(recv.input) + 8000
+//@   ensures @C20 peak() <= len(recv.input) && peak() >= recv.pos.Index
+//@   ensures @C20 pc_ok(recv) && recv.posCacheIndex >= old(recv.posCacheIndex)
+//@   ensures @C20 recv.codeScanIndex >= old(recv.codeScanIndex) && recv.codeScanIndex <= recv.pos.Index
+//@ func (*Tokenizer).readPunctuation
+//@   inherit -C20
+//@   requires @C20 recv.tokenStart >= recv.posCacheIndex && recv.tokenStart <= recv.pos.Index
+//@   ensures @C20 implies(succeeded(), recv.tokenStart >= recv.posCacheIndex && recv.tokenStart >= old(recv.tokenStart) && recv.tokenStart <= recv.pos.Index)
+//@   requires recv.pos.Index < len(recv.input)
+//@   ensures @C20 implies(succeeded(), cost() <= 400*(peak() - old(recv.pos.Index)) + (recv.posCacheIndex - old(recv.posCacheIndex)) + (recv.codeScanIndex - old(recv.codeScanIndex)) + 400)
+//@   ensures @C20 cost() <= 400*(peak() - old(recv.pos.Index)) + (recv.posCacheIndex - old(recv.posCacheIndex)) + (recv.codeScanIndex - old(recv.codeScanIndex)) + 60*len(recv.input) + 8000
+//@   ensures @C20 peak() <= len(recv.input) && peak() >= recv.pos.Index
+//@   ensures @C20 pc_ok(recv) && recv.posCacheIndex >= old(recv.posCacheIndex)
+//@   ensures @C20 recv.codeScanIndex >= old(recv.codeScanIndex) && recv.codeScanIndex <= recv.pos.Index
+//@   loop 5 invariant tz_ok(recv) && recv.pos.Index <= contentEnd && contentEnd <= len(recv.input)
+//@   loop 5 invariant implies(closed, contentEnd + len(closingTag) <= len(recv.input))
+//@   loop 5 invariant @C20 cost() <= 20*(peak() - old(recv.pos.Index)) + 2*(contentEnd - contentStart) + 100 && peak() == recv.pos.Index && contentStart <= contentEnd
+//@   loop 6 invariant @C20 cost() <= 40*(peak() - old(recv.pos.Index)) + 4*(contentEnd - contentStart) + 200 && peak() == recv.pos.Index && contentStart <= contentEnd
+//@   loop 6 invariant recv.pos.Index == contentEnd + i && 0 <= i && i <= len(closingTag) && contentEnd + len(closingTag) <= len(recv.input)
+//@   loop * invariant @C20 cost() <= 8*(peak() - old(recv.pos.Index)) + 100 + (recv.posCacheIndex - old(recv.posCacheIndex))
+//@   loop * invariant @C20 cost() <= 2*(peak() - old(recv.pos.Index)) + 4
+//@   loop * invariant @C20 peak() == recv.pos.Index && peak() <= len(recv.input)
+//@   loop * invariant @C20 recv.posCacheIndex == old(recv.posCacheIndex) && recv.posCacheColumn == old(recv.posCacheColumn)
+//@   loop * invariant @C20 recv.posCacheIndex >= old(recv.posCacheIndex) && pc_ok(recv)
+//@   loop * invariant @C20 recv.codeScanIndex == old(recv.codeScanIndex) && recv.codeScanFound == old(recv.codeScanFound)
+
+// getLocation serves the public Position.Location only; it is one pass over the input and is not called during a run.
+//@ func (*Tokenizer).getLocation
+//@   inherit -C20
+//@   ensures @C20 cost() <= len(recv.input) + 8
+//@   loop 1 invariant @C20 0 <= i && i <= len(t.input) && cost() <= i + 4
+
 // Entry points: the size limit is checked before anything else; the main loop (a closure) keeps the cursor
 // inside the input, never holds more than MaxTokens tokens, and terminates (variant: bytes left).
 //@ func (*Tokenizer).Tokenize$1
+//@   loop 1 invariant @C20 pc_ok(t) && 0 <= t.codeScanIndex && t.codeScanIndex <= t.pos.Index
+//@   loop 1 invariant @C20 forall(k, 0, len(t.lineStarts), t.lineStarts[k] >= 0)
+//@   loop 1 invariant @C20 look() >= 0 && cost() <= 2000*t.pos.Index + t.posCacheIndex + t.codeScanIndex + 400*look() + 100
 //@   loop 1 invariant @C04 forall(k, 0, len(tokens), tokens[k].Token.Type != models.TokenTypeEOF)
 //@   loop 1 invariant tz_ok(t) && len(tokens) <= MaxTokens
 //@   loop 1 decreases len(t.input) - t.pos.Index
 //@ func (*Tokenizer).TokenizeContext$1
+//@   loop 1 invariant @C20 pc_ok(t) && 0 <= t.codeScanIndex && t.codeScanIndex <= t.pos.Index
+//@   loop 1 invariant @C20 forall(k, 0, len(t.lineStarts), t.lineStarts[k] >= 0)
+//@   loop 1 invariant @C20 look() >= 0 && cost() <= 2000*t.pos.Index + t.posCacheIndex + t.codeScanIndex + 400*look() + 100
 //@   loop 1 invariant @C04 forall(k, 0, len(tokens), tokens[k].Token.Type != models.TokenTypeEOF)
 //@   loop 1 invariant tz_ok(t) && len(tokens) <= MaxTokens
 //@   loop 1 decreases len(t.input) - t.pos.Index
 
 //@ func (*Tokenizer).Tokenize
+//@   ensures  @C20 cost() <= 2100*len(input) + 400*look() + 100000
+//@   loop 1 invariant @C20 look() == 0 && i <= len(input) && cost() <= 2*i + 20 && forall(k, 0, len(t.lineStarts), t.lineStarts[k] >= 0)
+//@   loop 1 invariant @C20 t.posCacheIndex == 0 && t.codeScanIndex == 0
 //@   ensures  @C04 implies(err == nil, len(result) >= 1 && result[len(result)-1].Token.Type == models.TokenTypeEOF)
 //@   ensures  @C04 implies(err == nil, forall(k, 0, len(result)-1, result[k].Token.Type != models.TokenTypeEOF))
 //@   ensures  implies(len(input) > MaxInputSize, err != nil)
@@ -97,6 +256,9 @@ package tokenizer
 //@   loop 1 invariant 0 <= i && t.input == input && t.pos.Index == 0
 
 //@ func (*Tokenizer).TokenizeContext
+//@   ensures  @C20 cost() <= 2100*len(input) + 400*look() + 100000
+//@   loop 1 invariant @C20 look() == 0 && i <= len(input) && cost() <= 2*i + 20 && forall(k, 0, len(t.lineStarts), t.lineStarts[k] >= 0)
+//@   loop 1 invariant @C20 t.posCacheIndex == 0 && t.codeScanIndex == 0
 //@   ensures  @C04 implies(err == nil, len(result) >= 1 && result[len(result)-1].Token.Type == models.TokenTypeEOF)
 //@   ensures  @C04 implies(err == nil, forall(k, 0, len(result)-1, result[k].Token.Type != models.TokenTypeEOF))
 //@   ensures  implies(len(input) > MaxInputSize, err != nil)
